@@ -4,6 +4,7 @@ import OrsoVerif.Lemmas.SchemaFns
 import OrsoVerif.Lemmas.SchemaHeap
 import OrsoVerif.Lemmas.SchemaBattery
 import OrsoVerif.Lemmas.SchemaOpaque
+import OrsoVerif.Lemmas.SchemaIter
 import OrsoVerif.Generated.SchemaFns
 /-!
 # C17 — Schema union and lookup are identity-based, ordered and non-mutating
@@ -703,9 +704,11 @@ against a changed translation before it accepts it; see `harness/extractors/c17_
 theorem generated_all_names_eq_model (c : Col ι ν) : Gen.SchemaFns.all_names c = c.allNames := by
   cases h : c.aliases <;> simp [Gen.SchemaFns.all_names, Col.allNames, h, Gen.SchemaOps.aliasesFirst]
 
-/-- `RelationSchema.find_column` (both branches) -/
-theorem generated_find_column_eq_model (S : StrOps ν) (lower : ν → ν) (s : Schema ι ν) (k : ν) (ci : Bool) :
-    Gen.SchemaFns.find_column S lower s k ci = find lower s.columns k ci := by
+/-- `RelationSchema.find_column` (both branches): the first column that bears the key as its name or one of its aliases,
+`None` when none does — **whatever else a column carries** (`T`: its identity, `str()`, `repr()`, type, description … read
+as names; the translated function takes them as a parameter and the equality holds for every `T`: it consults none). -/
+theorem generated_find_column_eq_model (S : StrOps ν) (T : ColText ι ν) (lower : ν → ν) (s : Schema ι ν) (k : ν) (ci : Bool) :
+    Gen.SchemaFns.find_column S T lower s k ci = find lower s.columns k ci := by
   unfold Gen.SchemaFns.find_column find
   first
     | (cases ci <;>
@@ -728,14 +731,14 @@ way a Python list is indexed, anything else is looked up by name, case-sensitive
 like** (`S` is everything Python can ask of a string besides comparing it: `'1'.isdecimal()`, `int('1')`,
 `' a'.strip()`, `== 'None'` …: the translated function takes it as a parameter and the equality holds for every
 `S`, i.e. the source consults none of it), and it raises nothing but `IndexError` (`.ok`). -/
-theorem generated_column_eq_model (S : StrOps ν) (s : Schema ι ν) (key : Key ν) :
-    Gen.SchemaFns.column S s key = .ok (column s.columns key) := by
+theorem generated_column_eq_model (S : StrOps ν) (T : ColText ι ν) (s : Schema ι ν) (key : Key ν) :
+    Gen.SchemaFns.column S T s key = .ok (column s.columns key) := by
   unfold Gen.SchemaFns.column column
   cases key <;> simp [generated_find_column_eq_model, find, boolIndex] <;> grind
 
 /-- `RelationSchema.pop_column`: the removed column and the remaining column list -/
-theorem generated_pop_column_eq_model (S : StrOps ν) (s : Schema ι ν) (k : ν) :
-    Gen.SchemaFns.pop_column S s k = popCol k s.columns := by
+theorem generated_pop_column_eq_model (S : StrOps ν) (T : ColText ι ν) (s : Schema ι ν) (k : ν) :
+    Gen.SchemaFns.pop_column S T s k = popCol k s.columns := by
   unfold Gen.SchemaFns.pop_column
   first
     | -- `for idx, column in enumerate(self.columns): if <named k>: return self.columns.pop(idx)`
@@ -812,6 +815,102 @@ theorem generated_names_eq_model (s : Schema ι ν) :
          done)
   · simp [Gen.SchemaFns.num_columns, h1, columnNames]
 
+/-- `RelationSchema.__iter__`, as the iterator it builds: an iterator over a list of the names made when `__iter__`
+is called — not a walk over the live column list (`IterSrc`). -/
+theorem generated_iter_eq_model (s : Schema ι ν) : Gen.SchemaFns.iter_src s = iterSrc s := by
+  unfold Gen.SchemaFns.iter_src iterSrc
+  first
+    | rfl
+    | (congr 1
+       first
+         | exact (generated_names_eq_model s).1
+         | (simp [columnNames, (generated_names_eq_model s).1]
+            done))
+
 -- END generated-eq
+
+/-! ## An iteration in progress, interleaved with removals and sums -/
+
+/-- **Iteration order, for every interleaving.**  Obtain an iterator from schema `r` (`iter(schema)`, the head of a
+`for name in schema:` loop) in any state — after any history — and then do anything: advance it, remove columns from
+the schema it came from (or from any other), build sums, obtain and advance other iterators.  Its answers are those
+of an iterator over a list of its own holding the names the schema had *when the iterator was created*
+(`listIterRun`); so what it yields, followed by what it still has, is exactly those names in positional order, and it
+answers `StopIteration` only once all of them were yielded.  `Gen.SchemaFns.iter_src` — what `__iter__` builds, re-read
+from the source on every run — is the `__iter__` of the machine. -/
+theorem iterator_yields_names_at_creation (lower : ν → ν) (st st' : ISt ι ν) (r : Nat) (post : List (IOp ν))
+    (outs : List (IOut ι ν))
+    (h : irun (fun s => Gen.SchemaFns.iter_src s) lower st (.mk r :: post) = some (st', outs)) :
+    ∃ s os, st.regs[r]? = some s ∧ outs = .made st.iters.length :: os
+      ∧ answersOf st.iters.length post os = (listIterRun (columnNames s.columns) (asksOf st.iters.length post)).2
+      ∧ st'.iters[st.iters.length]? = some (.snap (listIterRun (columnNames s.columns) (asksOf st.iters.length post)).1)
+      ∧ yielded (answersOf st.iters.length post os)
+          ++ (listIterRun (columnNames s.columns) (asksOf st.iters.length post)).1 = columnNames s.columns
+      ∧ (ItOut.stop ∈ answersOf st.iters.length post os →
+          yielded (answersOf st.iters.length post os) = columnNames s.columns) := by
+  have hsrc : (fun s : Schema ι ν => Gen.SchemaFns.iter_src s) = iterSrc := by
+    funext s
+    exact generated_iter_eq_model s
+  rw [hsrc] at h
+  simp only [irun] at h
+  cases h1 : istep iterSrc lower st (.mk r) with
+  | none => simp [h1] at h
+  | some r1 =>
+    obtain ⟨st1, o⟩ := r1
+    simp only [h1] at h
+    cases h2 : irun iterSrc lower st1 post with
+    | none => simp [h2] at h
+    | some r2 =>
+      obtain ⟨st2, os⟩ := r2
+      simp only [h2, Option.some.injEq, Prod.mk.injEq] at h
+      obtain ⟨rfl, rfl⟩ := h
+      simp only [istep] at h1
+      cases hr : st.regs[r]? with
+      | none => simp [hr] at h1
+      | some s =>
+        simp only [hr, Option.some.injEq, Prod.mk.injEq] at h1
+        obtain ⟨rfl, rfl⟩ := h1
+        have hk : (st.iters ++ [(iterSrc s).start r])[st.iters.length]? = some (.snap (columnNames s.columns)) := by
+          simp [iterSrc, IterSrc.start]
+        obtain ⟨f1, f2⟩ := snapshot_frame iterSrc lower post _ _ _ h2 st.iters.length _ hk
+        refine ⟨s, os, rfl, rfl, f2, f1, ?_, ?_⟩
+        · rw [f2]
+          exact listIterRun_yielded _ _
+        · intro hs
+          rw [f2] at hs ⊢
+          have h0 := listIterRun_stop _ _ hs
+          have := listIterRun_yielded (columnNames s.columns) (asksOf st.iters.length post)
+          rw [h0, List.append_nil] at this
+          exact this
+
+/-- Once an iterator is a snapshot it stays one, whatever `__iter__` builds for the iterators obtained later and
+whatever else happens: its answers are a function of its own list and the questions put to it. -/
+theorem snapshot_iterator_frame (src : Schema ι ν → IterSrc ι ν) (lower : ν → ν) (prog : List (IOp ν))
+    (st st' : ISt ι ν) (outs : List (IOut ι ν)) (h : irun src lower st prog = some (st', outs))
+    (k : Nat) (l : List ν) (hk : st.iters[k]? = some (.snap l)) :
+    st'.iters[k]? = some (.snap (listIterRun l (asksOf k prog)).1)
+    ∧ answersOf k prog outs = (listIterRun l (asksOf k prog)).2 :=
+  snapshot_frame src lower prog st st' outs h k l hk
+
+/-- **Iterating modifies nothing**: obtaining and advancing iterators — whatever `__iter__` builds — leaves every
+schema as the register operations alone leave it, and those get the answers they get without any iterator around. -/
+theorem iteration_modifies_nothing (src : Schema ι ν → IterSrc ι ν) (lower : ν → ν) (prog : List (IOp ν))
+    (st st' : ISt ι ν) (outs : List (IOut ι ν)) (h : irun src lower st prog = some (st', outs)) :
+    prun lower st.regs (baseOps prog) = some (st'.regs, baseOuts prog outs) :=
+  irun_regs src lower prog st st' outs h
+
+/-- The counterexample that shows the snapshot is what makes it true (C17-w6s1): were `__iter__` a generator walking
+the live column list (`(col.name for col in self.columns)`), then on columns named `1, 2, 3` — take the iterator,
+advance it once (`1`), remove column `1`, drain — the column named `2` would never be yielded: the list shifted under
+the walk.  Under the model's `__iter__` the same program yields `1`, then `2, 3`. -/
+theorem live_iterator_skips_after_removal :
+    let cols : List (Col Nat Nat) := [⟨0, 10, 1, none⟩, ⟨1, 11, 2, none⟩, ⟨2, 12, 3, none⟩]
+    let prog : List (IOp Nat) := [.mk 0, .ask 0 .next, .base (.on 0 (.pop 1)), .ask 0 .drain]
+    (irun (fun _ => IterSrc.walk (fun c : Col Nat Nat => c.name)) id ⟨[⟨7, [], cols⟩], []⟩ prog).map (·.2)
+      = some [.made 0, .it (.item 1), .base (.out (.popped (some ⟨0, 10, 1, none⟩))), .it (.rest [3])]
+    ∧ (irun iterSrc id ⟨[⟨7, [], cols⟩], []⟩ prog).map (·.2)
+      = some [.made 0, .it (.item 1), .base (.out (.popped (some ⟨0, 10, 1, none⟩))), .it (.rest [2, 3])] := by
+  decide
+
 
 end C17
